@@ -382,8 +382,8 @@ func BuildCorpus(thorough bool) int {
 					if !fcheck.Compressible(f) || isHdr || isOpts || len(fcheck.PathClass(cs.Name)) > 0 {
 						continue
 					}
-					if !thorough {
-						continue // bodies compressed as a whole are mutated blindly: thorough only
+					if !thorough && kind != "QUERY" && kind != "RESULT.Void" {
+						continue // bodies compressed as a whole are mutated blindly: quick keeps one request and one response kind per compressor
 					}
 					f.Header.Flags |= primitive.HeaderFlagCompressed
 				}
